@@ -27,6 +27,8 @@ type QuerySpec struct {
 	Pred *Expr     `json:"pred,omitempty"`
 	Sort []SortKey `json:"sort,omitempty"`
 	Page Paging    `json:"page"`
+	// Via: "" = the store itself, "staff" = the child store (only people with child data), "staffx" = the extended child store (everyone)
+	Via string `json:"via,omitempty"`
 }
 
 func (q *QuerySpec) Render() string {
